@@ -16,6 +16,10 @@ def _custom_tbl_dtype_compare(dtype1, dtype2):
     the other.
     """
 
+    if len(dtype1) != len(dtype2):
+        # different number of columns
+        return False
+
     for d1, d2 in zip(dtype1, dtype2):
         for k in set(list(d1.keys()) + list(d2.keys())):
             if k == "unit":
@@ -152,8 +156,10 @@ def write_table_hdf5(
     existing_header = None
     if name in output_group:
         if append and overwrite:
-            # Delete only the dataset itself
+            # Delete only the dataset itself (and its serialized header)
             del output_group[name]
+            if meta_path(name) in output_group:
+                del output_group[meta_path(name)]
         elif append:
             # Data table exists, so we interpret "append" to mean "extend
             # existing table with the table passed in". However, this requires
